@@ -1579,7 +1579,7 @@ type corpusStmt struct {
 var corpus = []corpusStmt{
 	{"rp-text", "SELECT rid, cnt AS read_parquet_cnt FROM cpu ORDER BY rid", []string{"cpu"}, nil, true, []string{"", "prod"}},
 	{"rp-text", "SELECT rid FROM cpu WHERE host <> 'read_parquet' ORDER BY rid", []string{"cpu"}, nil, true, []string{"", "prod"}},
-	{"comma-join", "SELECT a.rid, b.rid FROM cpu a, mem b WHERE a.host = b.host ORDER BY a.rid, b.rid", []string{"cpu", "mem"}, nil, true, []string{"", "prod"}},
+	{"comma-join", "SELECT a.rid, b.rid FROM cpu a, mem b WHERE a.host = b.host AND a.host <> 'zz' ORDER BY a.rid, b.rid", []string{"cpu", "mem"}, nil, true, []string{"", "prod"}},
 	{"distinct-from", "SELECT a.rid FROM disk a WHERE a.host IS DISTINCT FROM NULL ORDER BY a.rid", []string{"disk"}, nil, true, []string{"", "prod"}},
 	{"cte-shadow", "SELECT a.rid, s.k FROM cpu a JOIN (WITH cpu AS (SELECT 1 AS k) SELECT k FROM cpu) s ON a.cnt >= s.k ORDER BY a.rid", []string{"cpu"}, []string{"cpu"}, true, []string{"", "prod"}},
 	{"cte-quoted", "WITH \"t1\" AS (SELECT rid, cnt FROM mem) SELECT rid, cnt FROM t1 ORDER BY rid", []string{"mem"}, []string{"t1"}, true, []string{"", "prod"}},
